@@ -661,4 +661,19 @@ theorem stale_identifier_before_repair :
     let e2 := (makeOld e1 ⟨1, 0, 0, 4, false⟩).1              -- a queued request registers another one
     (remove e2 0).2 = true ∧ (remove (make e1 ⟨1, 0, 0, 4, false⟩).1 0).2 = false := by decide
 
+/-! ### the shutdown that walks the table outside of the lock -/
+
+/-- the shutdown that walks the table after it has released the lock: the handlers are scheduled for their close, and
+    are still in their slots for whoever removes them meanwhile -/
+def closeAllLoose (e : EP) : EP :=
+  { e with pending := e.pending ++ e.slots.filterMap id, closed := true }
+
+/-- **A sweep outside the lock closes a handler twice**: registered, the shutdown begins (the handler is scheduled for
+    its close and still in its slot), its owner removes it (closed once), the scheduled close runs (closed again) — the
+    seeded change C17o.  With `closeAll` the same steps close it once (`closed_at_most_once`, `every_handler_accounted`). -/
+theorem sweep_outside_the_lock_closes_twice :
+    occ 0 (asyncClose (remove (closeAllLoose (make {} ⟨1, 0, 0, 4, false⟩).1) 0).1 0).done = 2 ∧
+    occ 0 (asyncClose (remove (closeAll (make {} ⟨1, 0, 0, 4, false⟩).1) 0).1 0).done = 1 := by decide
+
+
 end QiVerif.C17
